@@ -868,6 +868,11 @@ def __getstate__(self):
     if isinstance(self._values_, (numbers.Real, np.bool_)):
         antimask = None             # used below
 
+        # ...except that a masked value is not stored; as for arrays, it comes
+        # back as the default
+        if self._mask_:
+            clone._values_ = self._default_
+
     # For a fully masked object, remove the values
     elif np.all(self._mask_):
         clone._mask_ = True         # convert to bool if it's an array
